@@ -43,7 +43,7 @@ def main():
         rc, o = sh([PY, os.path.join(dst, 'demo.py')], cwd=tree)
         ran.append({'cmd': 'demo.py on the unmodified tree', 'exit': rc, 'tail': o.strip().splitlines()[-1:] })
         demo_clean = rc
-        subprocess.check_call(['git', '-C', tree, 'apply', os.path.join(dst, 'patch.diff')])
+        subprocess.check_call(['git', '-C', tree, 'apply', '--3way', os.path.join(dst, 'patch.diff')])
         rc, o = sh([PY, '-c', 'import pgpy, sys; print(pgpy.__file__)'], cwd=tree)
         assert tree in o, o
         rc, o = sh([PY, os.path.join(dst, 'demo.py')], cwd=tree)
